@@ -25,7 +25,7 @@ type c10Case struct {
 func init() {
 	engine.Register(&engine.Check{
 		ID: "C10", Level: "exploration",
-		Rule:        "(a) every ordered triple of points of the 7x7 (quick) / 9x9 (thorough) integer grid, also scaled by 2^330 and 2^-330 and translated by 2^40; (b) for each of 24 exactly collinear base triples with non-trivial mantissas (slopes 1, 1/3, 7/5, -2/9, magnitudes 1e-100..1e100) every perturbation of the six ordinates by {-2..2} (quick) / {-3..3} (thorough) ulps; (c) every triple over the 27-bit coordinate set {0,1,2^26,2^27-1,2^27-3}^2; extra ordinates NaN/Inf; oracle = sign of the exact rational cross product for bigxy.OrientationIndex and xy.OrientationIndex, plus antisymmetry and cyclic invariance. distinct_nontrivial = distinct triples whose exact determinant is non-zero or whose points are pairwise distinct Also: Fibonacci/Pell lattice points up to 2^51 around three origins (cross product +-1 with exact integer ordinates), and points of magnitudes 2^-330..2^330 on one line through the origin with single ordinates 1 or 3 ulps off; every triple over {0,1e-100,3e-50,1,2,3,1e100}^2 (one axis spanning 660 binary orders, the other narrow) and its mirror image; lean sweeps in all six argument orders: the floats nearest to the line through every ordered pair of 16 full-mantissa points at parameters k/64 (thorough k/256), k=-m..2m, with their 8 one-ulp neighbours; ~10^4 (thorough 4*10^4) exactly collinear mixed-magnitude triples (40-bit fractions against integers up to 10^7) and their one- and two-ulp perturbations; 90 segments passing close to the coordinate origin with 2049 (thorough 16385) query points each of much smaller magnitude near the line (all four differences inexact) and their one-ulp neighbours; few-bit ordinates at very different binary exponents (A=-a, B=s*b, P=j*s*b with cross(a,b)=+-1, 20..26-bit a,b, s=2^10,2^23,2^30); every triple over {-2^31,-2^31+1,-2^30,-1,0,1,2^30,2^31-1}^2; integer triples of magnitude 2^24..2^53 in opposite quadrants with cross product +-1,+-2,+-3 (extended Euclid).",
+		Rule:        "(a) every ordered triple of points of the 7x7 (quick) / 9x9 (thorough) integer grid, also scaled by 2^330 and 2^-330 and translated by 2^40; (b) for each of 24 exactly collinear base triples with non-trivial mantissas (slopes 1, 1/3, 7/5, -2/9, magnitudes 1e-100..1e100) every perturbation of the six ordinates by {-2..2} (quick) / {-3..3} (thorough) ulps; (c) every triple over the 27-bit coordinate set {0,1,2^26,2^27-1,2^27-3}^2; extra ordinates NaN/Inf; oracle = sign of the exact rational cross product for bigxy.OrientationIndex and xy.OrientationIndex, plus antisymmetry and cyclic invariance. distinct_nontrivial = distinct triples whose exact determinant is non-zero or whose points are pairwise distinct Also: Fibonacci/Pell lattice points up to 2^51 around three origins (cross product +-1 with exact integer ordinates), and points of magnitudes 2^-330..2^330 on one line through the origin with single ordinates 1 or 3 ulps off; every triple over {0,1e-100,3e-50,1,2,3,1e100}^2 (one axis spanning 660 binary orders, the other narrow) and its mirror image; lean sweeps in all six argument orders: the floats nearest to the line through every ordered pair of 16 full-mantissa points at parameters k/64 (thorough k/256), k=-m..2m, with their 8 one-ulp neighbours; ~10^4 (thorough 4*10^4) exactly collinear mixed-magnitude triples (40-bit fractions against integers up to 10^7) and their one- and two-ulp perturbations; 90 segments passing close to the coordinate origin with 2049 (thorough 16385) query points each of much smaller magnitude near the line (all four differences inexact) and their one-ulp neighbours; few-bit ordinates at very different binary exponents (A=-a, B=s*b, P=j*s*b with cross(a,b)=+-1, 20..26-bit a,b, s=2^10,2^23,2^30); every triple over {-2^31,-2^31+1,-2^30,-1,0,1,2^30,2^31-1}^2; integer triples of magnitude 2^24..2^53 in opposite quadrants with cross product +-1,+-2,+-3 (extended Euclid). Round 9: determinants that are a difference of second-order terms (A = P+(s,r), B = P-(r,s) about a diagonal through C: det = r^2-s^2), ~490000 cases.",
 		Run:         c10Run,
 		Replay:      func(c *engine.Ctx, kind string, raw json.RawMessage) { c10Exec(c, decodeCase[c10Case](raw)) },
 		Assumptions: []string{"math/big rationals are exact; ordinates are zero or of magnitude within [1e-100,1e100]"},
